@@ -344,6 +344,8 @@ var _ = register(&propSpec{
 						var idx int
 						fmt.Sscanf(it.Text, "n%d", &idx)
 						it.Kind, it.Ref, it.Text = "include", c11Names[idx], ""
+					case "lazyrel":
+						it.Kind = "include"
 					case "lazyloop":
 						continue
 					}
